@@ -14,6 +14,7 @@ CONSTANTS
   ReadMax = {4}
   Closers = {}
   MuxDroppers = {"B"}
+  Cancellers = {}
   DgSenders = {}
   MaxDgrams = 0
   Binders = {"A", "B"}
